@@ -198,7 +198,8 @@ package runtime
 
 //@ frame pointFrame = alltype(input.Point), alltype(input.TFMeta), maptype(map[string]string), maptype(map[string]*input.TFMeta)
 
-//@ spec wfTask(ctx *Task) bool = ctx.stackCur != nil && ctx.stackCur.Data != nil && ctx.input != nil && ctx.Regs.count <= 6
+//@ spec wfTask(ctx *Task) bool = ctx.stackCur != nil && ctx.stackCur.Data != nil && ctx.stackCur.depth >= 0
+//@ | && ctx.input != nil && ctx.Regs.count <= 6
 
 // module-wide type invariants (checked at every creation site in the swept packages,
 // assumed at every use): scope tables never hold a nil variable, function tables never
@@ -239,16 +240,18 @@ package runtime
 
 //@ func (*Task).StackEnterNew
 //@ props C01 C03
+//@ requires ctx.stackCur != nil && ctx.stackCur.depth >= 0
 //@ modifies ctx.stackCur
 //@ ensures ctx.stackCur != nil && fresh(ctx.stackCur) && ctx.stackCur.Data != nil
 //@ ensures ctx.stackCur.Before == old(ctx.stackCur)
-//@ ensures ctx.stackCur.depth == (old(ctx.stackCur) == nil ? 0 : old(ctx.stackCur.depth) + 1)
+//@ ensures ctx.stackCur.depth == old(ctx.stackCur.depth) + 1
 
 //@ func (*Task).StackExitCur
 //@ props C01 C03
-//@ requires ctx.stackCur != nil
+//@ requires ctx.stackCur != nil && ctx.stackCur.depth > 0
 //@ modifies ctx.stackCur, ctx.stackCur.Data, ctx.stackCur.CheckPattern
 //@ ensures ctx.stackCur == old(ctx.stackCur.Before)
+//@ ensures ctx.stackCur != nil && ctx.stackCur.depth == old(ctx.stackCur.depth) - 1
 
 //@ func (*Script).Run
 //@ props C01 C13 C14 C15
@@ -535,6 +538,7 @@ package runtime
 //@ func (*Task).GetFuncCall
 //@ props C01
 //@ pure
+//@ ensures result1 ==> result0 != nil
 
 //@ func (*PlReg).Count
 //@ props C01
